@@ -1325,6 +1325,13 @@ def build_jobs(ctx, search=False):
         step = 24
         for s in range(0, len(allp), step):
             jobs.append({'type': 'gcd', 'cfg': [1, 0, bool((s // step) % 2)], 'l': l, 'pairs': allp[s:s + step], 'seed': rng.randrange(1 << 30)})
+    # inputs needing many divsteps (found by exhaustive / random search with an independent simulation of the
+    # Bernstein-Yang divstep map): the iteration count of the code has a slack of only ~8 steps over these for l <= 10
+    hard = {6: [(31, -30)], 7: [(63, -62)], 8: [(127, -78)], 9: [(255, -227)], 10: [(510, -367)], 16: [(32318, 28225)],
+            32: [(610056805, 2064884437)]}
+    for l, prs in hard.items():
+        if l <= 16 or ctx.thorough:
+            jobs.append({'type': 'gcd', 'cfg': [1, 0, False], 'l': l, 'pairs': prs, 'seed': rng.randrange(1 << 30)})
     for i in range(ctx.scale(8, 60)):
         l = [4, 8, 8, 16][i % 4] if not ctx.thorough else [4, 8, 16, 32][i % 4]
         pairs = []
@@ -1367,9 +1374,10 @@ def process(ctx, results):
                     res2 = sh['res'] if sh else run['res']
                     bad = sh['bad'] if sh else run['bad']
                     ctx.violation(f'C01: secure-integer program: {bad[1]}',
-                                  {'kind': 'program', 'prog': p2, 'cfg': cfg, 'seed': run['seed'], 'sched': run['sched'],
-                                   'check': bad[0], 'expected': expected(p2), 'observed': res2.get('outs', res2.get('error')),
-                                   'original_program': prog if sh else None})
+                                  {'kind': 'program', 'prog': json.dumps(p2), 'cfg': cfg, 'seed': run['seed'], 'sched': run['sched'],
+                                   'check': bad[0], 'expected': str(expected(p2)), 'observed': str(res2.get('outs', res2.get('error'))),
+                                   'program_format': 'JSON text of {l, env, senders, roots, in_range}, see harness/secint_oracle.py',
+                                   'original_program': json.dumps(prog) if sh else None})
             if len(ctx.samples) < 3 and sum(node_count(e) for e in prog['roots']) > 12:
                 ctx.sample({'l': prog['l'], 'env': prog['env'], 'roots': prog['roots'], 'outputs': r['runs'][0]['res'].get('outs', [None])[0]})
             # Lean evalSpec on the in-range stream
@@ -1472,10 +1480,25 @@ def search(ctx):
     process(ctx, results)
 
 
+def _unstr(x):
+    """replays are written with integers beyond 2^62 as decimal strings: turn them back"""
+    import re
+    if isinstance(x, str) and re.fullmatch(r'-?\d{15,}', x):
+        return int(x)
+    if isinstance(x, list):
+        return [_unstr(y) for y in x]
+    if isinstance(x, dict):
+        return {k: _unstr(v) for k, v in x.items()}
+    return x
+
+
 def replay(ctx, data):
+    data = _unstr(data)
     kind = data.get('kind')
     if kind == 'program':
         prog = data['prog']
+        if isinstance(prog, str):
+            prog = json.loads(prog)
         res = run_program(prog, tuple(data['cfg']), data.get('seed', 0), tuple(data.get('sched', ('fifo', 'whole'))))
         bad = check_run(prog, res)
         if bad is not None:
